@@ -198,7 +198,12 @@ def shape_glyphs(cubic):
 
 def make_glyphs(c):
     if c["part"] == "trie":
-        return trie_glyphs(c["shapes"], c["variant"], c["palette"], c["d"])
+        glyphs = trie_glyphs(c["shapes"], c["variant"], c["palette"], c["d"])
+        if c.get("ident"):
+            for g in glyphs.values():
+                if g.get("contours"):
+                    g["identifiers"] = True
+        return glyphs
     if c["part"] == "shapes":
         return shape_glyphs(c["cubic"])
     if c["part"] == "dev":
@@ -664,6 +669,12 @@ class C02(Property):
                 for shape in b["dev_pairs"]:
                     if c["aq"]:
                         add(c, part="dev", shape=shape, k=2, module="ufoLib2", needs_cubic=shape in CUBIC_SHAPES)
+            if c["err"] is None and c["upm"] == 1000 and c["aq"] and c["cc"] and not c["drop"]:
+                # contours and points that carry identifiers (unique within a glyph, recurring across
+                # glyphs): mixed glyphs and glyphs that use one base several times are decomposed
+                for variant, module in itertools.product(("mixed", "multi"), ("ufoLib2", "defcon")):
+                    add(c, part="trie", variant=variant, shapes=["tri", "mixed"], d=2,
+                        palette=B.QUICK_TRANSFORMS, module=module, ident=1)
             if c["err"] is None and c["upm"] == 1000 and c["aq"] and not c["drop"]:
                 add(c, part="cycle", module="ufoLib2")
             if c["err"] is None and c["upm"] == 1000:
